@@ -794,6 +794,61 @@ func checkConfigWriters(c *Ctx, rule string) {
 			}
 		}
 	}
+	// which values are "the config path": a value handed to an atomic writer as its path, to os.ReadFile whose bytes go
+	// to config.Parse, or to a parameter of a function that uses it in one of these ways (fixpoint over app/mcp)
+	cfgParam := map[*ssa.Function]map[int]bool{}
+	isCfgUse := func(fn *ssa.Function, v ssa.Value) bool {
+		for _, ci := range allCalls(fn, nil) {
+			g := ci.Common().StaticCallee()
+			if g == nil {
+				continue
+			}
+			args := ci.Common().Args
+			if atomic[g] && len(args) >= 1 && sameOriginLoad(args[0], v) {
+				return true
+			}
+			if g.Pkg != nil && g.Pkg.Pkg.Path() == "os" && g.Name() == "ReadFile" && len(args) == 1 && sameOriginLoad(args[0], v) {
+				// bytes reach config.Parse?
+				if cv, ok := ci.(ssa.Value); ok {
+					for _, c2 := range allCalls(fn, nil) {
+						g2 := c2.Common().StaticCallee()
+						if g2 != nil && g2.Name() == "Parse" && g2.Pkg != nil && strings.HasSuffix(g2.Pkg.Pkg.Path(), "/internal/config") {
+							if o, _ := origin(c2.Common().Args[0]); o == cv {
+								return true
+							}
+						}
+					}
+				}
+			}
+			if m := cfgParam[g]; m != nil {
+				for i, a := range args {
+					if m[i] && sameOriginLoad(a, v) {
+						return true
+					}
+				}
+			}
+		}
+		return false
+	}
+	for changed := true; changed; {
+		changed = false
+		for _, pkg := range []string{"app", "mcp"} {
+			for _, fn := range p.FuncsInPkg(pkg) {
+				for i, pr := range fn.Params {
+					if !isStringT(pr.Type()) || (cfgParam[fn] != nil && cfgParam[fn][i]) {
+						continue
+					}
+					if isCfgUse(fn, pr) {
+						if cfgParam[fn] == nil {
+							cfgParam[fn] = map[int]bool{}
+						}
+						cfgParam[fn][i] = true
+						changed = true
+					}
+				}
+			}
+		}
+	}
 	for _, s := range sites {
 		n++
 		top := topLevel(s.fn)
@@ -807,7 +862,14 @@ func checkConfigWriters(c *Ctx, rule string) {
 			arg := s.ins.(ssa.CallInstruction).Common().Args[0]
 			desc := strings.ToLower(sourcesString(p.sourcesThroughWrappers(arg, 0)))
 			sym, _ := symOf(arg)
-			mentionsConfig := strings.Contains(desc, "config") || strings.Contains(strings.ToLower(sym), "config")
+			mentionsConfig := strings.Contains(desc, "config") || strings.Contains(strings.ToLower(sym), "config") || isCfgUse(s.fn, arg)
+			if !mentionsConfig {
+				for i, pr := range s.fn.Params {
+					if cfgParam[s.fn] != nil && cfgParam[s.fn][i] && sameOriginLoad(arg, pr) {
+						mentionsConfig = true
+					}
+				}
+			}
 			isRollbackRemove := s.sink == "Remove" && rollbackRemoveOK(p, s.fn, s.ins)
 			if mentionsConfig && !isRollbackRemove {
 				c.Fail(rule, key, p.InstrPos(s.ins), "a file-writing call outside the atomic writer receives a path derived from the config path ("+desc+")")
@@ -947,13 +1009,56 @@ func checkRewriteValidateRestore(c *Ctx, rule string) {
 			} else {
 				c.Fail(rule, name+":parse-ok-of-written-bytes-before-write", p.InstrPos(first), "the config file can be replaced by bytes that were not (successfully) parsed", path...)
 			}
+			// the compile that counts is the one applied to what the parse of the written bytes produced
+			compileOfCandidate := map[ssa.Value]bool{}
+			for _, cc := range allCalls(fn, func(ci ssa.CallInstruction) bool {
+				f := ci.Common().StaticCallee()
+				return f != nil && f.Name() == "Compile" && f.Pkg != nil && strings.HasSuffix(f.Pkg.Pkg.Path(), "/internal/config")
+			}) {
+				arg := cc.Common().Args[0]
+				o, idx := origin(arg)
+				for _, pc := range parseOfWritten {
+					if pv, isV := pc.(ssa.Value); isV && o == pv && idx == 0 {
+						if v, isV2 := cc.(ssa.Value); isV2 {
+							compileOfCandidate[v] = true
+						}
+					}
+				}
+			}
+			okFieldOf := func(v ssa.Value) ssa.Value {
+				// v is <validation result>.OK: return the call producing the validation result
+				var base ssa.Value
+				switch x := v.(type) {
+				case *ssa.Field:
+					base = x.X
+				case *ssa.UnOp:
+					if fa, isFA := x.X.(*ssa.FieldAddr); isFA {
+						if _, f, _ := fieldAddrName(fa); f == "OK" {
+							if al, isAl := fa.X.(*ssa.Alloc); isAl {
+								for _, ref := range *al.Referrers() {
+									if st, isSt := ref.(*ssa.Store); isSt && st.Addr == al {
+										base = st.Val
+									}
+								}
+							}
+						}
+					}
+				}
+				if base == nil {
+					return nil
+				}
+				o, _ := origin(base)
+				return o
+			}
 			var okC []Edge
 			for _, b := range fn.Blocks {
 				for i := range b.Succs {
 					at, ok := edgeAtom(Edge{b, i})
 					if ok && isBoolTrue(at.Y) && at.Op == token.EQL {
 						if sym, ok := symOf(at.X); ok && strings.HasSuffix(sym, ".OK") {
-							okC = append(okC, Edge{b, i})
+							if src := okFieldOf(at.X); src != nil && compileOfCandidate[src] {
+								okC = append(okC, Edge{b, i})
+							}
 						}
 					}
 				}
@@ -963,7 +1068,7 @@ func checkRewriteValidateRestore(c *Ctx, rule string) {
 			if okc && len(okC) > 0 {
 				c.Ok(rule, name+":compile-ok-before-write", p.InstrPos(first), "the candidate compiled before the file is replaced")
 			} else {
-				c.Fail(rule, name+":compile-ok-before-write", p.InstrPos(first), "the config file can be replaced by a candidate that does not compile", pathc...)
+				c.Fail(rule, name+":compile-ok-before-write", p.InstrPos(first), "the config file can be replaced without the parsed candidate (the result of parsing the bytes written) having compiled with OK", pathc...)
 			}
 			// restore: for every non-restoring write, each error return feasibly reachable from its ok edge passes a restoring write
 			var restores []ssa.Instruction
